@@ -182,6 +182,8 @@ def build_garble(repo=None, tags=None, overlay=None, name="garble", pkg="."):
     out = os.path.join(CACHE, "garble", th, name)
     with lock(os.path.join(CACHE, "garble", th + ".lock")):
         if os.path.exists(out):
+            try: os.utime(os.path.dirname(out))
+            except OSError: pass
             return out
         os.makedirs(os.path.dirname(out), exist_ok=True)
         argv = ["go", "build", "-o", out + ".tmp"]
@@ -206,8 +208,11 @@ def _prune_garble_bins(keep):
     d = os.path.join(CACHE, "garble")
     ents = [e for e in os.listdir(d) if os.path.isdir(os.path.join(d, e)) and e != keep]
     ents.sort(key=lambda e: os.path.getmtime(os.path.join(d, e)))
+    # a binary may be in use by a concurrently running check: only drop entries unused for a long time
+    now = time.time()
     for e in ents[:-12]:
-        shutil.rmtree(os.path.join(d, e), ignore_errors=True)
+        if now - os.path.getmtime(os.path.join(d, e)) > 12 * 3600:
+            shutil.rmtree(os.path.join(d, e), ignore_errors=True)
 
 
 # ---------------------------------------------------------------- caches
